@@ -62,6 +62,18 @@ func TestWorker(t *testing.T) {
 	}
 }
 
+// TestChildInstance is the body of a child instance process (see child.go).
+func TestChildInstance(t *testing.T) {
+	sp := os.Getenv("APPSYS_CHILD")
+	if sp == "" {
+		t.Skip("not started as a child instance")
+	}
+	initProcess()
+	if err := runChild(sp); err != nil {
+		t.Fatal(err)
+	}
+}
+
 // TestStandalone runs app-engine parts outside a property check (development and stability loops):
 //
 //	APPSYS_PROP=C04,C07 [APPSYS_KIND=substring] [VERIF_TIER=thorough] [VERIF_SEED=n] go test -tags verif,appsysworker -overlay ... -run TestStandalone ./appsys/worker/
